@@ -824,6 +824,12 @@ class SReal:
 
     __hash__ = None
 
+    def __bool__(s):
+        c = s.const()
+        if c is not None:
+            return c != 0
+        return CTX.decide(s.z != 0)
+
     def __float__(s):
         c = s.const()
         if c is None:
